@@ -664,7 +664,7 @@ Qed.
 Lemma Forall2_in_l {A B} (R : A -> B -> Prop) l l' x :
   Forall2 R l l' -> In x l -> exists y, In y l' /\ R x y.
 Proof.
-  intros F. induction F as [|a b l l' Hab F IH]; intros Hin; destruct Hin as [E|Hin].
+  intros F. induction F as [|a b l l' Hab F IH]; intros Hin; [destruct Hin|]. destruct Hin as [E|Hin].
   - subst. exists b. split; [left; auto|auto].
   - destruct (IH Hin) as [y [Hy Hr]]. exists y. split; [right; auto|auto].
 Qed.
@@ -697,7 +697,7 @@ Lemma all2b_sconf_sound : forall hs r cs,
 Proof.
   induction hs as [|h hs IH]; intros r cs H F; destruct r as [|t r]; simpl in H; try discriminate.
   - inversion F; subst. constructor.
-  - inversion F; subst. apply andb_true_iff in H. destruct H as [H1 H2]. constructor.
+  - inversion F; subst. apply andb_true_iff in H. destruct H as [Hc1 Hc2]. constructor.
     + unfold hast in *. eapply sconf_sound; eauto.
     + apply IH; auto.
 Qed.
@@ -779,17 +779,52 @@ Proof.
 Qed.
 
 (* ------------------------------------------------------------ the program *)
+Lemma bounds_sound_rules D trie R (B : factset) :
+  (forall c, In c R -> check_clause D trie c = Ok (true, true)) ->
+  (forall f, B f -> fact_ok D f) ->
+  forall f, lfp R B f -> fact_ok D f.
+Proof.
+  intros HR HB f Hf. induction Hf as [f Hf | I c f HI IH Hc Hd]; auto.
+  eapply check_clause_sound; eauto.
+Qed.
+
+Lemma check_program_inv D R init :
+  check_program D R init = Ok (true, true) ->
+  (forall f, In f init -> fact_ok D f) /\
+  (forall c, In c R -> check_clause D (trie_of D) c = Ok (true, true)).
+Proof.
+  intros H. unfold check_program in H.
+  apply bindM_true in H. destruct H as [a [Ha H]].
+  apply bindM_true in H. destruct H as [b [Hb H]].
+  apply ret_true in H. destruct H as [H _]. apply andb_true_iff in H. destruct H; subst.
+  split.
+  - intros f Hin. eapply check_fact_sound. eapply allM_true in Ha; eauto.
+  - intros c Hin. eapply allM_true in Hb; eauto.
+Qed.
+
 Theorem bounds_sound D R init (B : factset) :
   check_program D R init = Ok (true, true) ->
   (forall f, B f -> In f init \/ fact_ok D f) ->
   forall f, lfp R B f -> fact_ok D f.
 Proof.
-  intros H HB. unfold check_program in H.
-  apply bindM_true in H. destruct H as [a [Ha H]].
-  apply bindM_true in H. destruct H as [b [Hb H]].
-  apply ret_true in H. destruct H as [H _]. apply andb_true_iff in H. destruct H; subst.
-  intros f Hf. induction Hf as [f Hf | I c f HI IH Hc Hd].
-  - destruct (HB f Hf) as [Hin|Hok]; auto.
-    eapply check_fact_sound. eapply allM_true in Ha; eauto.
-  - eapply check_clause_sound; eauto. eapply allM_true in Hb; eauto.
+  intros H HB. destruct (check_program_inv _ _ _ H) as [Hi Hc].
+  apply bounds_sound_rules with (trie := trie_of D); auto.
+  intros f Hf. destruct (HB f Hf); auto.
+Qed.
+
+(* stratified programs: every layer is evaluated over the completed lower ones *)
+Theorem bounds_sound_strata D P init :
+  check_program D P init = Ok (true, true) ->
+  forall layers (B : factset),
+  (forall f, B f -> In f init \/ fact_ok D f) ->
+  forall f, slfp P layers B f -> fact_ok D f.
+Proof.
+  intros H. destruct (check_program_inv _ _ _ H) as [Hi Hc].
+  assert (G : forall layers (B : factset), (forall f, B f -> fact_ok D f) ->
+                forall f, slfp P layers B f -> fact_ok D f).
+  { induction layers as [|ps rest IH]; intros B HB f Hf; simpl in Hf; auto.
+    apply (IH (lfp (layer_rules P ps) B)); auto.
+    apply bounds_sound_rules with (trie := trie_of D); auto.
+    intros c Hin. apply Hc. unfold layer_rules in Hin. apply filter_In in Hin. tauto. }
+  intros layers B HB. apply G. intros f Hf. destruct (HB f Hf); auto.
 Qed.
